@@ -272,7 +272,7 @@ def oracle(ctx, out, desc, im) -> bool:
     if not any(c['kind'] in ('I0', 'Iac') for c in comps):
         try:
             dc = DCSolution(im.circuit)
-            u0 = np.array([next(c['val'] for c in comps if c['id'] == s) for s in sources])
+            u0 = np.array([next(gs.dc_value(c) for c in comps if c['id'] == s) for s in sources])
             X0 = np.linalg.solve(-A, B @ u0) if ns else np.zeros(0)
             for key, (rc, rd) in zip(keys, rows):
                 val = float(rc @ X0 + rd @ u0)
@@ -613,7 +613,7 @@ def run(ctx, out):
     container_cases(ctx, out)
     malformed_cases(ctx, out)
     rng = ctx.rng('random')
-    n_random = 160 if ctx.quick else 2500
+    n_random = 130 if ctx.quick else 2500
     reserve = 8 if ctx.quick else 420          # thorough: stop the random stream after ≈ 18 min
     for k in range(n_random):
         if ctx.time_left() < reserve: out.notes.append(f'stopped after {k} random cases (budget)'); break
@@ -624,6 +624,11 @@ def run(ctx, out):
             if ok: break
             out.count('rejected_degenerate:' + why)
         check_case(ctx, out, desc)
+        # source-kind stream: the same circuit with ideal ac / periodic voltage sources (w = 0 and w ≠ 0) and ac
+        # current sources (w = 0), nominal phases in all quadrants — every ideal source kind the builder accepts
+        if rng.random() < (0.3 if ctx.quick else 1.0):
+            check_case(ctx, out, gs.with_source_kinds(rng, desc, lossy=False), 'source_kinds')
+            out.count('source_kind_cases')
         # unit-scale stream: the same circuit in realistic SI units (exact decade scalings and log-uniform values)
         if rng.random() < (0.35 if ctx.quick else 1.0):
             # (run as one sequence after the base circuit: same ids, other values, same process — the replay
